@@ -16,6 +16,7 @@ YnArgs == << Nil, S(<<"y", ",", "n">>), S(<<"y", ",", "n", ",", "m">>), S(<<"y">
 \* floatformat: every multiple of 1/8 in -3..3 (exact in binary: ties are settled) and values around the rounding boundaries
 FixVals == {125 * k : k \in (0 - 24)..24} \cup {1, 0 - 1, 4, 5, 6, 15, 49, 51, 994, 995, 996, 999, 1001, 1234, 1236, 34232, 34260, 39560, 0 - 1234, 9995, 9999, 99999, 0 - 99999}
 FfArgs == << Nil, I(0), I(1), I(2), I(3), I(4), I(5), I(0 - 1), I(0 - 2), I(0 - 3), I(0 - 4), I(1000 + 1), S(<<"0">>), S(<<"-", "3">>), S(<<"2">>), S(<<"x">>), S(<<>>) >>
+StrNums == << <<"0", "1", "0">>, <<"0", "0", "7">>, <<"0", "1", "2">>, <<"0", "8">>, <<"0">>, <<"0", "0">>, <<"-", "0", "1", "0">>, <<"1", "0">>, <<"3">>, <<"x">>, <<"0", "x", "1", "0">>, <<>> >>
 FmtVals == {I(0), I(7), I(0 - 7), I(12345), S(<<>>), S(<<"a", "b">>), S(<<"EACUTE", "CJK">>), S(<<"a", "b", "c", "d", "e", "f">>)}
 \* the argument as written: the format string of a spec record
 SpecArg(spec) == S(spec.pre \o <<"%">> \o (IF spec.flag = "" THEN <<>> ELSE <<spec.flag>>) \o (IF spec.width = 0 THEN <<>> ELSE NatStr(spec.width)) \o <<spec.verb>> \o spec.post)
@@ -43,7 +44,7 @@ Init ==
               LET v == IF kind = "str" THEN S(SubSeq(Base12, 1, n)) ELSE L(SubSeq(Ints7, 1, n)) IN
               vec = Vec("slice", v, P(BoundV(a), BoundV(b)), FilterRef("slice", v, P(BoundV(a), BoundV(b)))))
        [] Family = "pad" -> (
-            \E f \in {"center", "ljust", "rjust"}, n \in 0..12, w \in 0..20 :
+            \E f \in {"center", "ljust", "rjust"}, n \in 0..12, w \in (0 - 6)..20 :
               vec = Vec(f, S(SubSeq(Base12, 1, n)), I(w), FilterRef(f, S(SubSeq(Base12, 1, n)), I(w))))
        [] Family = "trunc" -> (
             \/ \E n \in 0..12, w \in (0 - 1)..14 : vec = Vec("truncatechars", S(SubSeq(Base12, 1, n)), I(w), FilterRef("truncatechars", S(SubSeq(Base12, 1, n)), I(w)))
@@ -77,6 +78,19 @@ Init ==
                                    \/ vec = Vec("float", Fix(n), Nil, FilterRef("float", Fix(n), Nil))
             \/ \E q \in 1..Len(Nums) : \/ vec = Vec("integer", Nums[q], Nil, FilterRef("integer", Nums[q], Nil))
                                         \/ vec = Vec("float", Nums[q], Nil, FilterRef("float", Nums[q], Nil)))
+       [] Family = "strnum" -> (
+            \* numbers that arrive as text (a quoted filter argument, a string variable): decimal, also with leading zeros
+            \E q \in 1..Len(StrNums) :
+              LET a == S(StrNums[q]) IN
+              \/ \E f \in {"ljust", "rjust", "center", "truncatechars"} : vec = Vec(f, S(SubSeq(Base12, 1, 9)), a, FilterRef(f, S(SubSeq(Base12, 1, 9)), a))
+              \/ \E f \in {"truncatewords", "wordwrap"} : vec = Vec(f, S(Texts[6]), a, FilterRef(f, S(Texts[6]), a))
+              \/ vec = Vec("integer", a, Nil, FilterRef("integer", a, Nil))
+              \/ vec = Vec("length_is", S(SubSeq(Base12, 1, 10)), a, FilterRef("length_is", S(SubSeq(Base12, 1, 10)), a))
+              \/ vec = Vec("divisibleby", I(40), a, FilterRef("divisibleby", I(40), a))
+              \/ vec = Vec("divisibleby", a, I(5), FilterRef("divisibleby", a, I(5)))
+              \/ vec = Vec("get_digit", I(1234567890), a, FilterRef("get_digit", I(1234567890), a))
+              \/ (AbsI(ArgInt(a)) <= 5 /\ vec = Vec("floatformat", Fix(1234), a, FilterRef("floatformat", Fix(1234), a)))
+              \/ vec = Vec("add", I(1), a, S(<<"1">> \o StrNums[q])))
        [] Family = "fmt" -> (
             \/ \E v \in FmtVals, pre \in {<<>>, <<"n", "=">>}, post \in {<<>>, <<"!">>}, flag \in {"", "-", "0"}, width \in {0, 1, 3, 5}, verb \in {"d", "s", "v"} :
                  /\ (verb = "d") = (v.k = "int") \/ verb = "v"
@@ -111,18 +125,18 @@ Next == go = FALSE /\ go' = TRUE /\ UNCHANGED vec
 Shapes ==
   go => CASE vec.f = "slice" -> (IF vec.in.k = "str" THEN IsSubSeqContig(vec.out.s, vec.in.s) ELSE IsSubSeqContig(vec.out.l, vec.in.l))
           [] vec.f \in {"center", "ljust", "rjust"} ->
-               /\ Len(vec.out.s) = Max2(Len(vec.in.s), vec.arg.n)
+               /\ Len(vec.out.s) = Max2(Len(vec.in.s), IntOf(vec.arg))
                /\ IsSubSeqContig(vec.in.s, vec.out.s)
                /\ Cardinality({i \in 1..Len(vec.out.s) : vec.out.s[i] = " "}) - Cardinality({i \in 1..Len(vec.in.s) : vec.in.s[i] = " "})
-                    = Max2(vec.arg.n - Len(vec.in.s), 0)
+                    = Max2(IntOf(vec.arg) - Len(vec.in.s), 0)
                /\ (vec.f = "ljust" => SubSeq(vec.out.s, 1, Len(vec.in.s)) = vec.in.s)
                /\ (vec.f = "rjust" => SubSeq(vec.out.s, Len(vec.out.s) - Len(vec.in.s) + 1, Len(vec.out.s)) = vec.in.s)
-          [] vec.f = "truncatechars" -> (vec.arg.n > 0 => (Len(vec.out.s) <= Max2(vec.arg.n, Min2(Len(vec.in.s), vec.arg.n)) /\ (Len(vec.in.s) <= vec.arg.n => vec.out.s = vec.in.s)))
+          [] vec.f = "truncatechars" -> (IntOf(vec.arg) > 0 => (Len(vec.out.s) <= Max2(IntOf(vec.arg), Min2(Len(vec.in.s), IntOf(vec.arg))) /\ (Len(vec.in.s) <= IntOf(vec.arg) => vec.out.s = vec.in.s)))
           [] vec.f = "floatformat" ->      \* exactly |n| places after the point (none, and no point, for 0); a whole number only when trimmed
                (vec.out.k = "str" =>
                   LET d == AbsI(IF vec.arg.k = "nil" THEN 1 ELSE ArgInt(vec.arg)) dots == {i \in 1..Len(vec.out.s) : vec.out.s[i] = "."} IN
                   IF d = 0 THEN dots = {} ELSE dots = {Len(vec.out.s) - d})
-               /\ (vec.out.k = "int" => ThousandthsOf(vec.in) = 1000 * vec.out.n /\ (vec.arg.k # "int" \/ vec.arg.n <= 0))
+               /\ (vec.out.k = "int" => ThousandthsOf(vec.in) = 1000 * vec.out.n /\ (vec.arg.k # "int" \/ IntOf(vec.arg) <= 0))
           [] vec.f = "stringformat" -> Len(vec.out.s) >= Len(StrOf(vec.in))
           [] vec.f = "escape" /\ vec.in.k = "str" -> EscapeDecodes(vec.in.s) /\ EscapeNoDangerous(vec.in.s)
           [] vec.f = "addslashes" /\ vec.in.k = "str" -> AddSlashesOnlyNamed(vec.in.s)
